@@ -95,9 +95,16 @@ class Dispatcher(InstructionGenerator):
                 filter_function=_is_valid_for_dispatch,
             )
 
-            unassigned_requests = simulation_state.get_requests(
-                sort_key=lambda r: (-r.value, r.id),
-                filter_function=_valid_request,
+            # fleets are solved one after the other: a request that is open to several fleets (or to all of
+            # them) and was matched by an earlier fleet in this run is not offered again
+            matched_request_ids = frozenset(i.request_id for i in inst_acc)
+            unassigned_requests = tuple(
+                r
+                for r in simulation_state.get_requests(
+                    sort_key=lambda r: (-r.value, r.id),
+                    filter_function=_valid_request,
+                )
+                if r.id not in matched_request_ids
             )
 
             # select assignment of vehicles to requests
